@@ -21,25 +21,25 @@ pub fn check(prop: &str, tier: &str) -> i32 {
       prop: "C01",
       rule: "class-W programs x initial worlds x histories of external changes and top-down sessions; non-trivial = some session both reused and re-executed tasks",
       assumptions: vec!["from-scratch model (Clean) is correct"],
-      configs: vec![Config { name: "td", quick: 100_000, thorough: 4_000_000 }],
+      configs: vec![Config { name: "td", quick: 100_000, thorough: 4_000_000 }, Config { name: "td-big", quick: 30_000, thorough: 1_000_000 }, Config { name: "td-checkerr", quick: 40_000, thorough: 1_000_000 }, Config { name: "td-crash", quick: 40_000, thorough: 1_000_000 }],
     }, tier),
     "C02" => run_check(&BuildEngine, &CheckSpec {
       prop: "C02",
       rule: "as C01; plus exact-checker programs for the minimality clause",
       assumptions: vec!["from-scratch model (Clean) is correct"],
-      configs: vec![Config { name: "td", quick: 60_000, thorough: 2_000_000 }, Config { name: "td-exact", quick: 60_000, thorough: 2_000_000 }],
+      configs: vec![Config { name: "td", quick: 60_000, thorough: 2_000_000 }, Config { name: "td-exact", quick: 60_000, thorough: 2_000_000 }, Config { name: "td-crash", quick: 50_000, thorough: 1_500_000 }, Config { name: "td-checkerr", quick: 30_000, thorough: 1_000_000 }],
     }, tier),
     "C03" => run_check(&BuildEngine, &CheckSpec {
       prop: "C03",
       rule: "bottom-up mixes",
       assumptions: vec!["from-scratch model (Clean) is correct"],
-      configs: vec![Config { name: "bu-pure", quick: 60_000, thorough: 2_000_000 }, Config { name: "bu-allroots", quick: 60_000, thorough: 2_000_000 }],
+      configs: vec![Config { name: "bu-pure", quick: 60_000, thorough: 2_000_000 }, Config { name: "bu-allroots", quick: 60_000, thorough: 2_000_000 }, Config { name: "bu-big", quick: 80_000, thorough: 2_500_000 }],
     }, tier),
     "C04" => run_check(&BuildEngine, &CheckSpec {
       prop: "C04",
       rule: "bottom-up mixes",
       assumptions: vec!["from-scratch model (Clean) is correct"],
-      configs: vec![Config { name: "bu-pure", quick: 60_000, thorough: 2_000_000 }, Config { name: "bu-allroots", quick: 60_000, thorough: 2_000_000 }],
+      configs: vec![Config { name: "bu-big", quick: 100_000, thorough: 3_000_000 }, Config { name: "bu-pure", quick: 50_000, thorough: 2_000_000 }, Config { name: "bu-allroots", quick: 50_000, thorough: 2_000_000 }, Config { name: "bu-big-allroots", quick: 50_000, thorough: 1_500_000 }],
     }, tier),
     "C17" => run_check(&BuildEngine, &CheckSpec {
       prop: "C17",
@@ -59,6 +59,24 @@ pub fn check(prop: &str, tier: &str) -> i32 {
       assumptions: vec![],
       configs: vec![Config { name: "td-crash", quick: 100_000, thorough: 3_000_000 }, Config { name: "bu-crash", quick: 60_000, thorough: 2_000_000 }],
     }, tier),
+    "C18" => run_check(&BuildEngine, &CheckSpec {
+      prop: "C18",
+      rule: "check errors",
+      assumptions: vec![],
+      configs: vec![Config { name: "td-checkerr", quick: 80_000, thorough: 2_500_000 }, Config { name: "bu-checkerr", quick: 80_000, thorough: 2_500_000 }],
+    }, tier),
+    "C05" => run_check(&BuildEngine, &CheckSpec {
+      prop: "C05", rule: "class X hidden", assumptions: vec![],
+      configs: vec![Config { name: "x-hidden-td", quick: 80_000, thorough: 2_500_000 }, Config { name: "x-hidden-bu", quick: 60_000, thorough: 2_000_000 }, Config { name: "td", quick: 20_000, thorough: 500_000 }],
+    }, tier),
+    "C06" => run_check(&BuildEngine, &CheckSpec {
+      prop: "C06", rule: "class X overlap", assumptions: vec![],
+      configs: vec![Config { name: "x-overlap-td", quick: 80_000, thorough: 2_500_000 }, Config { name: "x-overlap-bu", quick: 60_000, thorough: 2_000_000 }, Config { name: "bu-allroots", quick: 20_000, thorough: 500_000 }, Config { name: "bu-crash", quick: 40_000, thorough: 1_000_000 }, Config { name: "td-crash", quick: 20_000, thorough: 500_000 }],
+    }, tier),
+    "C07" => run_check(&BuildEngine, &CheckSpec {
+      prop: "C07", rule: "class X cycle", assumptions: vec![],
+      configs: vec![Config { name: "x-cycle-td", quick: 80_000, thorough: 2_500_000 }, Config { name: "x-cycle-bu", quick: 60_000, thorough: 2_000_000 }],
+    }, tier),
     _ => { eprintln!("no check for property {prop}"); 2 }
   }
 }
@@ -69,11 +87,16 @@ pub fn list() {
 
 pub fn configs_of(prop: &str) -> Vec<&'static str> {
   match prop {
-    "C01" => vec!["td"],
-    "C02" => vec!["td", "td-exact"],
-    "C03" | "C04" => vec!["bu-pure", "bu-allroots"],
+    "C01" => vec!["td", "td-big", "td-checkerr", "td-crash"],
+    "C02" => vec!["td", "td-exact", "td-crash", "td-checkerr"],
+    "C03" => vec!["bu-pure", "bu-allroots", "bu-big"],
+    "C04" => vec!["bu-big", "bu-pure", "bu-allroots", "bu-big-allroots"],
     "C10" | "C11" => vec!["short", "long"],
     "C17" => vec!["td", "bu-pure"],
+    "C05" => vec!["x-hidden-td", "x-hidden-bu", "td"],
+    "C06" => vec!["x-overlap-td", "x-overlap-bu", "bu-allroots", "bu-crash", "td-crash"],
+    "C07" => vec!["x-cycle-td", "x-cycle-bu"],
+    "C18" => vec!["td-checkerr", "bu-checkerr"],
     "C19" => vec!["td-crash", "bu-crash"],
     "C16" => vec!["td-replay", "bu-replay", "bu-mixed-replay"],
     _ => vec![],
